@@ -406,6 +406,15 @@ func registerEnv(e *Engine) {
 		return in.ctx.Eq(term(a[0].(structure)[1]), in.ctx.Const(64, 0))
 	})
 	e.reg("(time.Time).String", func(in *interp, fr *frame, a []value) value { return "<time>" })
+	e.reg("(time.Duration).Milliseconds", func(in *interp, fr *frame, a []value) value {
+		return in.ctx.Bin(sym.OpSDiv, term(a[0]), in.ctx.Const(64, 1e6))
+	})
+	e.reg("(time.Duration).Microseconds", func(in *interp, fr *frame, a []value) value {
+		return in.ctx.Bin(sym.OpSDiv, term(a[0]), in.ctx.Const(64, 1e3))
+	})
+	e.reg("(time.Duration).Nanoseconds", func(in *interp, fr *frame, a []value) value { return a[0] })
+	e.reg("(time.Duration).Minutes", func(in *interp, fr *frame, a []value) value { return float64(0) })
+	e.reg("(time.Duration).Hours", func(in *interp, fr *frame, a []value) value { return float64(0) })
 	e.reg("(time.Duration).Seconds", func(in *interp, fr *frame, a []value) value { return float64(0) })
 	e.reg("(time.Duration).String", func(in *interp, fr *frame, a []value) value { return "<duration>" })
 	e.reg("time.Sleep", func(in *interp, fr *frame, a []value) value { in.sch.yield("Sleep"); return nil })
